@@ -182,7 +182,7 @@ VTABLES = {
 
 EMBEDDINGS_QUICK = ["top", "tail", "deep(5)", "deep(11)", "spread(6)", "spread(64)", "scatter", "deep(250)",
                     "top:z", "top:o", "deep(6):z", "spread(7):z", "deep(12):o"]
-EMBEDDINGS_ALL = ["top", "tail", "scatter"] + ["deep(%d)" % p for p in
+EMBEDDINGS_ALL = ["top", "tail", "scatter", "ctop", "ctop:z"] + ["deep(%d)" % p for p in
                                                (0, 1, 5, 6, 7, 11, 12, 13, 17, 18, 19, 59, 60, 61, 125, 126, 127,
                                                 200, 245, 250)] + \
                  ["spread(%d)" % s for s in (6, 7, 13, 64)] + \
